@@ -1,6 +1,57 @@
+import glob, os, re
+from concurrent.futures import ThreadPoolExecutor
+
+
+def _branch_stage(c):
+    """model-branch coverage, computed in Coq (Router/C12Branch.v) over the case files of this run:
+    which arms of the models the generated cases reached.  Reported in the evidence, never judged."""
+    rundir = os.path.join(c["root"], "run", "C12")
+    theories = os.path.join(c["root"], "coq", "theories")
+    cov = c["meta"].setdefault("coverage_extra", {})
+    mods = sorted(os.path.basename(f)[:-3] for f in glob.glob(os.path.join(rundir, "cases_*.vo")))
+    if not mods or not os.path.exists(os.path.join(theories, "Router", "C12Branch.vo")):
+        cov["model_branches"] = "not computed (no compiled case files or Router/C12Branch.vo missing)"
+        return []
+    chunks = [mods[i:i + 8] for i in range(0, len(mods), 8)]
+
+    def one(arg):
+        i, ms = arg
+        f = os.path.join(rundir, "branches_%03d.v" % i)
+        with open(f, "w") as fh:
+            fh.write("From SC Require Import Base.Prelude Router.C12Judge Router.C12Branch.\n")
+            fh.write("Require %s.\n" % " ".join(ms))
+            fh.write("Definition H := Eval vm_compute in (branch_hist (%s)).\nPrint H.\n" % " ++ ".join(m + ".cases" for m in ms))
+            if i == 0:
+                fh.write("Definition A := Eval vm_compute in (map (fun k => (k, 0)) all_classes).\nPrint A.\n")
+        return c["sh"](["coqc", "-Q", theories, "SC", f], cwd=rundir, timeout=1200)
+
+    hist, allc, bad = {}, [], 0
+    with ThreadPoolExecutor(max_workers=int(os.environ.get("COQ_JOBS", "16"))) as ex:
+        for rc, out in ex.map(one, list(enumerate(chunks))):
+            if rc != 0:
+                bad += 1
+                continue
+            flat = re.sub(r"\s+", "", out)
+            mh = re.search(r"H=(\[.*?\]):list", flat)
+            for k, n in re.findall(r'\("([^"]*)"(?:%string)?,(\d+)\)', mh.group(1) if mh else ""):
+                hist[k] = hist.get(k, 0) + int(n)
+            ma = re.search(r"A=(\[.*?\]):list", flat)
+            if ma:
+                allc = [k for k, _ in re.findall(r'\("([^"]*)"(?:%string)?,(\d+)\)', ma.group(1))]
+    cov["model_branches"] = dict(sorted(hist.items()))
+    cov["model_branches_unhit"] = [k for k in allc if k not in hist]
+    cov["model_branches_note"] = "computed in Coq by Router/C12Branch.branch_hist over %d case files%s" % (
+        len(mods), "" if not bad else " (%d chunk(s) did not evaluate)" % bad)
+    h = c["meta"].setdefault("histogram", {})
+    for k, n in hist.items():
+        h["model:" + k] = n
+    return []
+
+
 CFG = {
+    "extra": _branch_stage,
     "harness_pkg": "c12",
-    "coq_modules": ["Router.C12Judge", "Router.TableProofs", "Router.RouterCbProofs", "Router.RegistryWProofs", "Router.NameTreeProofs", "Router.RouteWProofs", "Router.C12SchedProofs", "Router.RouterCbWProofs"],
+    "coq_modules": ["Router.C12Judge", "Router.TableProofs", "Router.RouterCbProofs", "Router.RegistryWProofs", "Router.NameTreeProofs", "Router.RouteWProofs", "Router.C12SchedProofs", "Router.RouterCbWProofs", "Router.C12Branch"],
     "judge_module": "Router.C12Judge",
     "allowed_axioms": [],
     "theorems": ["C12_registry_is_map", "C12_log_is_transitions", "C12_has_get_agree", "C12_notfound_touches_nothing",
